@@ -33,6 +33,7 @@ def main() -> int:
     ap.add_argument("--no-evidence", action="store_true")
     ap.add_argument("--replay-dir")
     ap.add_argument("--dump-digests", help="write per-seed trace digests (determinism self-test)")
+    ap.add_argument("--no-shrink", action="store_true", help="report violations without minimising them (sensitivity sweeps)")
     args = ap.parse_args()
     bootstrap.setup()
 
@@ -92,7 +93,9 @@ def main() -> int:
 
         small, n = (scn, 0)
         shrunk_groups = sum(1 for _ in ())
-        if (k is None and unlisted < 8) or (k is not None and len(groups) <= 12):
+        if args.no_shrink:
+            pass
+        elif (k is None and unlisted < 8) or (k is not None and len(groups) <= 12):
             small, n = shrink.shrink(scn, still, cap=getattr(prop, "SHRINK_CAP", 400))
         r = prop.execute(small)
         hit = [v for v in r["violations"] if v["rule"] == rule and v["sig"] == sig]
